@@ -22,6 +22,30 @@ spec fn tree_propagated(a1: ast::Aidl, a2: ast::Aidl) -> bool {
     }
 }
 
+// pipeline (C05): the returned tree is the stored tree with every type node, at every depth, resolved as the per-node
+// rules allow against the file's own import / forward-declaration names and the key -> kind map (then
+// oneway-propagated), and the 'unknown type' Errors - one per unknown name - are appended first
+spec fn post_resolved<ID>(fr: ParseFileResult<ID>, defined: Map<String, ResolvedItemKind>, out: ParseFileResult<ID>) -> bool {
+    exists |a1: ast::Aidl, d1: Seq<Diagnostic>, pre: Seq<Diagnostic>, ins: Set<String>, dns: Set<String>|
+            ins == qnames(fr.ast->0.imports@, fr.ast->0.imports@.len() as int)
+            && dns == qnames(fr.ast->0.declared_parcelables@, fr.ast->0.declared_parcelables@.len() as int)
+            && #[trigger] aidl_rel(resolve_rel(ins, dns, defined), fr.ast->0, a1) && tree_propagated(a1, out.ast->0)
+            && #[trigger] appended(fr.diagnostics@, d1, unknown_errs(types_pre_of(fr.ast->0), types_pre_of(fr.ast->0).len() as int, ins, dns, defined))
+            && prefix_kept(d1, pre) && #[trigger] pre.to_multiset() == out.diagnostics@.to_multiset()
+}
+// pipeline (C06): the import and forward-declaration diagnostics are computed against a set that holds exactly the
+// keys of the kinds of the returned tree's type nodes (at every depth)
+spec fn post_imports<'a, ID>(fr: ParseFileResult<ID>, defined: Map<String, ResolvedItemKind>, out: ParseFileResult<ID>) -> bool {
+    exists |res: Set<String>, d4: Seq<Diagnostic>, d5: Seq<Diagnostic>, d6: Seq<Diagnostic>, imap: Map<String, &'a ast::Import>, pre: Seq<Diagnostic>,
+                                   is: Seq<ast::Import>, ds: Seq<ast::Import>|
+            is == out.ast->0.imports@ && ds == out.ast->0.declared_parcelables@
+            && #[trigger] imports_post(is, res, defined, d4, d5, imap)
+            && import_map_ok(is, is.len() as int, imap)
+            && #[trigger] decls_post(ds, imap, res, d5, d6)
+            && coupled(kinds_pre_of(out.ast->0), res) && prefix_kept(fr.diagnostics@, d4)
+            && prefix_kept(d6, pre) && #[trigger] pre.to_multiset() == out.diagnostics@.to_multiset()
+}
+
 // the result for one file is constrained by (id, stored result, key -> kind map) only
 spec fn file_post<'a, ID>(id: ID, fr: ParseFileResult<ID>, defined: Map<String, ResolvedItemKind>, out_id: ID, out: ParseFileResult<ID>) -> bool {
     // C01: keyed and tagged by the caller's id
@@ -44,23 +68,7 @@ spec fn file_post<'a, ID>(id: ID, fr: ParseFileResult<ID>, defined: Map<String, 
     &&& (fr.ast is Some ==> exists |d2: Seq<Diagnostic>, d3: Seq<Diagnostic>, ts: Seq<ast::Type>|
             #[trigger] appended(d2, d3, containers_expect(ts, ts.len() as int))
             && ts == types_of(out.ast->0) && prefix_kept(fr.diagnostics@, d2))
-    // pipeline (C05): the returned tree is the stored tree with every type node, at every depth, resolved as the per-node
-    // rules allow against the file's own import / forward-declaration names and the key -> kind map (then
-    // oneway-propagated), and the 'unknown type' Errors - one per unknown name - are appended first
-    &&& (fr.ast is Some ==> exists |a1: ast::Aidl, d1: Seq<Diagnostic>, pre: Seq<Diagnostic>, ins: Set<String>, dns: Set<String>|
-            ins == qnames(fr.ast->0.imports@, fr.ast->0.imports@.len() as int)
-            && dns == qnames(fr.ast->0.declared_parcelables@, fr.ast->0.declared_parcelables@.len() as int)
-            && #[trigger] aidl_rel(resolve_rel(ins, dns, defined), fr.ast->0, a1) && tree_propagated(a1, out.ast->0)
-            && #[trigger] appended(fr.diagnostics@, d1, unknown_errs(types_pre_of(fr.ast->0), types_pre_of(fr.ast->0).len() as int, ins, dns, defined))
-            && prefix_kept(d1, pre) && #[trigger] pre.to_multiset() == out.diagnostics@.to_multiset())
-    // pipeline (C06): the import and forward-declaration diagnostics are computed against a set that holds exactly the
-    // keys of the kinds of the returned tree's type nodes (at every depth)
-    &&& (fr.ast is Some ==> exists |res: Set<String>, d4: Seq<Diagnostic>, d5: Seq<Diagnostic>, d6: Seq<Diagnostic>, imap: Map<String, &'a ast::Import>, pre: Seq<Diagnostic>,
-                                   is: Seq<ast::Import>, ds: Seq<ast::Import>|
-            is == out.ast->0.imports@ && ds == out.ast->0.declared_parcelables@
-            && #[trigger] imports_post(is, res, defined, d4, d5, imap)
-            && import_map_ok(is, is.len() as int, imap)
-            && #[trigger] decls_post(ds, imap, res, d5, d6)
-            && coupled(kinds_pre_of(out.ast->0), res) && prefix_kept(fr.diagnostics@, d4)
-            && prefix_kept(d6, pre) && #[trigger] pre.to_multiset() == out.diagnostics@.to_multiset())
+    // pipeline (C05) and (C06): see post_resolved / post_imports
+    &&& (fr.ast is Some ==> post_resolved(fr, defined, out))
+    &&& (fr.ast is Some ==> post_imports(fr, defined, out))
 }
